@@ -76,6 +76,12 @@ def parseSink (s : String) : Option SinkKind :=
 
 def slotB := parseBounded 1000
 
+/-- a query slot: any 64-bit number (1..20 digits); nothing is inserted at it -/
+def slotQ (s : String) : Option Nat :=
+  match parseNum 20 s with
+  | some n => if n < 2 ^ 64 then some n else none
+  | none => none
+
 def parseOp (line : String) : Option Op :=
   match tokens line with
   | ["init", spe, ar, as, ap, je, jr, fe, fr, sink, bals] => do
@@ -98,16 +104,16 @@ def parseOp (line : String) : Option Op :=
     else some (.justify t ⟨je, jr⟩ ⟨fe, fr⟩ (some (← parseBalances bals)))
   | ["pin", r, s] => do some (.pin (← parseRoot r) (← slotB s))
   | ["head"] => some .head
-  | ["findhead", r, s] => do some (.findHead (← parseRoot r) (← slotB s))
-  | ["chain", r, s] => do some (.chain (← parseRoot r) (← slotB s))
-  | ["closest", r, s] => do some (.closest (← parseRoot r) (← slotB s))
+  | ["findhead", r, s] => do some (.findHead (← parseRoot r) (← slotQ s))
+  | ["chain", r, s] => do some (.chain (← parseRoot r) (← slotQ s))
+  | ["closest", r, s] => do some (.closest (← parseRoot r) (← slotQ s))
   | ["canonat", r, s, w] => do
     let w ← (if w = "0" then some false else if w = "1" then some true else none)
-    some (.canonAt (← parseRoot r) (← slotB s) w)
+    some (.canonAt (← parseRoot r) (← slotQ s) w)
   | ["getslot", r] => do some (.getSlot (← parseRoot r))
   | ["insub", a, r] => do some (.inSub (← parseRoot a) (← parseRoot r))
   | ["search", ar, as, p, s] => do
-    let ar ← parseRoot ar; let as ← slotB as
+    let ar ← parseRoot ar; let as ← slotQ as
     let p ← (if p = "-" then some none else (parseRoot p).map some)
     let s ← (if s = "-" then some none else (slotB s).map some)
     some (.search ⟨as, ar⟩ p s)
